@@ -5,7 +5,7 @@
 
    The record `gbs` (the Go struct BitStorage, a slice field as visible part + spare capacity), its setters
    and the panic / error values `gval` are GENERATED into Gen/C11gen.v from the struct declarations. *)
-From Coq Require Import List ZArith.
+From Coq Require Import List ZArith NArith.
 Import ListNotations.
 
 (* result of a translated function that can panic: the value, or the value handed to panic (V: the generated
@@ -15,3 +15,6 @@ Arguments GRet {V A} a. Arguments GPanic {V A} v.
 
 (* copy(dst, src): the first min(len dst, len src) elements of src overwrite those of dst *)
 Definition zcopy (dst src : list Z) : list Z := firstn (length dst) src ++ skipn (length src) dst.
+
+(* b.data[i] with i outside 0 .. len-1 in a reader (the other Crash classes are Model/C06_syntax.v's) *)
+Definition crash_index : N := 3%N.
